@@ -272,6 +272,9 @@ class RadiRouter:
         if route is not None:
             if isinstance(route, str):
                 route_pattern = self.to_pattern(route)
+                if not route_pattern.endswith('*') and self._match(route) is None:
+                    # no such route: the filters are part of the rule
+                    return
                 route = None
             else:
                 route_pattern = route.pattern
